@@ -95,8 +95,9 @@ def parents(els):
 
 
 # ------------------------------------------------------------------ real objects
-def one_value():
+def two_values():
     yield (0, {"rt": 0})
+    yield (0, {"rt": 1})
 
 
 def ident(val):
@@ -140,7 +141,7 @@ def build(els, tuples=False):
             else:
                 o = lena.core.Sequence(*ch)
         elif k == "src":
-            o = lena.core.Source(one_value, *[objs[c - 1] for c in e["ch"]])
+            o = lena.core.Source(two_values, *[objs[c - 1] for c in e["ch"]])
         elif k == "split":
             o = lena.core.Split([objs[c - 1] for c in e["ch"]])
             if tuples:
@@ -188,25 +189,32 @@ def observe_element(kind, o):
 
 
 def run_root(els, objs):
-    """Contexts of the values that leave the pipeline for one incoming value (0, {"rt": 0})."""
+    """Contexts of the values that leave the pipeline for the incoming values
+    (0, {"rt": 0}), (0, {"rt": 1})."""
     import lena.flow
     root = objs[-1]
     if els[-1]["k"] == "src":
         out = list(root())
     else:
-        out = list(root.run(iter([(0, {"rt": 0})])))
+        out = list(root.run(two_values()))
     return [prune(lena.flow.get_context(v)) for v in out]
 
 
 def observe(els, objs, run=True):
+    """Observations of every object, then (optionally) one value is run through the root and
+    everything is observed again: running the pipeline must not change what the elements hold
+    (changed = [(id, before, after)])."""
     obs = [observe_element(e["k"], o) for e, o in zip(els, objs)]
     rt = None
+    changed = []
     if run and exact_runtime(els):
         try:
             rt = run_root(els, objs)
         except Exception as exc:     # noqa
             rt = "raised " + exc_name(exc) + ": " + str(exc)[:200]
-    return obs, rt
+        again = [observe_element(e["k"], o) for e, o in zip(els, objs)]
+        changed = [(i, a, b) for i, (a, b) in enumerate(zip(obs, again), 1) if a != b]
+    return obs, rt, changed
 
 
 # ------------------------------------------------------------------ comparison with one expectation
@@ -303,18 +311,13 @@ def compare(els, exp, obs, rt):
                     bad.append((k, "unresolved-key-raises-" + o["exc"], pk, i, "LenaKeyError(%s)" % x["key"], o["msg"]))
                 else:
                     words = key_words(o["msg"])
+                    # the message must name a key that is unresolvable below this node: the first
+                    # one, or (the statement does not say which when several are) another one
                     if x["key"] not in words:
-                        # the statement does not say which key is named when several cannot be
-                        # resolved: accept any component of a formatting field below this node
-                        cand = set()
-                        for j in subtree(els, i):
-                            if els[j - 1]["k"] == "set":
-                                for p in fields(els[j - 1]["v"]):
-                                    cand.update(p)
-                        if words & cand:
+                        if words & set(x.get("un", ())):
                             used_other_key += 1
                         else:
-                            bad.append((k, "unresolved-key-not-named", pk, i, x["key"], o["msg"]))
+                            bad.append((k, "unresolved-key-not-named", pk, i, sorted(x.get("un", ())), o["msg"]))
     if rt is not None:
         has_ucfs = any(e["k"] == "ucfs" for e in els)
         if isinstance(rt, str):
@@ -359,7 +362,7 @@ def subtree(els, n):
 
 
 # ------------------------------------------------------------------ recording for the trace spec
-def record(els, obs, rt):
+def record(els, obs, rt, stable=True):
     """Observations in the vocabulary of Trace_StaticContext.tla (homogeneous records)."""
     rows = []
     for e, o in zip(els, obs):
@@ -386,6 +389,7 @@ def record(els, obs, rt):
     return {"els": els, "obs": rows,
             "ran": rt is None or isinstance(rt, list),
             "rtx": isinstance(rt, list),
+            "stable": bool(stable),
             "rt": [enc(c) for c in rt] if isinstance(rt, list) else [],
             "only": 0}
 
